@@ -326,12 +326,13 @@ def main(run: core.Run) -> None:
         items += [dict(c, level='basic') for c in docexp.corpus(docs.L_FULL, 1, depth=1)]
         depth1: list = []
     else:
-        items = [dict(c) for c in docexp.corpus(docs.L_EDIT, 3, depth=1, modes=(True, False))]
-        items += [dict(c) for c in docexp.corpus(docs.L_FULL, 2, depth=1)]
-        items += [dict(c, lf=3) for c in docexp.corpus(docs.L_EDIT, 2, depth=1)]
+        items = [dict(c) for c in docexp.corpus(docs.L_EDIT, 2, depth=1, modes=(True, False))]
+        items += [dict(c, level='basic') for c in docexp.corpus(docs.L_EDIT, 3, nmin=3, depth=1)]
+        items += [dict(c, level='basic') for c in docexp.corpus(docs.L_FULL, 2, depth=1)]
+        items += [dict(c, lf=3, level='basic') for c in docexp.corpus(docs.L_EDIT, 2, depth=1)]
         # depth-1 states: every successful basic edit of a 1-2 line document as prefix
         depth1 = []
-        for c in docexp.corpus(docs.L_EDIT, 2, depth=1):
+        for c in docexp.corpus(docs.L_EDIT, 1, depth=1) + docexp.class_cases(1)[::3]:
             root = docs.try_parse(c['text'], M.File, True)
             seen = set()
             for op in ops.enum_ops(root, 'basic', {'setnode', 'setval', 'seq', 'map'}):
